@@ -1,5 +1,8 @@
 import VermouthModel.C18
 import VermouthModel.C18_Map
+import VermouthModel.C18_Order
+import VermouthModel.C18_Write
+import VermouthModel.C18_MapWrite
 open Proto C18
 
 def posOf (x y z : Tok) : Option Pos := do pure (← x.int?, ← y.int?, ← z.int?)
@@ -54,6 +57,81 @@ def history (reset : Bool) (P : Params) (vsn : String) : List Job → Cache → 
     let r := selectContactsS (if reset then [] else cache) P (withSites j.atoms vs) j.edges j.contacts
     encJob vs r.1 :: history reset P vsn rest r.2
 
+
+def qOf (t : Tok) : Option Q := do
+  match ← t.list? with
+  | [n, d] => pure { num := ← n.int?, den := ← d.nat? }
+  | _ => none
+
+def numOf (t : Tok) : Option Num :=
+  match t with
+  | Tok.none => some .bad
+  | t => (qOf t).map Num.q
+
+def optStrs? (t : Tok) : Option (Option (List String)) :=
+  match t with
+  | Tok.none => some none
+  | t => (strs? t).map some
+
+def metaOf (d n g c : Tok) : Option Meta := do
+  pure { ifdef := ← d.optStr?, ifndef := ← n.optStr?, group := ← g.optStr?, comment := ← optStrs? c }
+
+def nbOf (t : Tok) : Option NbParam := do
+  match ← t.list? with
+  | [atoms, s, e, d, n, g, c] =>
+    pure { atoms := ← strs? atoms, sigma := ← numOf s, eps := ← numOf e, mt := ← metaOf d n g c }
+  | _ => none
+
+def atOf (t : Tok) : Option AtType := do
+  match ← t.list? with
+  | [ty, m, q, s, e, d, n, g, c] =>
+    pure { atype := ← ty.optStr?, mass := ← m.optStr?, charge := ← q.optStr?, sigma := ← numOf s, eps := ← numOf e,
+           mt := ← metaOf d n g c }
+  | _ => none
+
+def encErr : Option WErr → String
+  | none => "ok"
+  | some .valueError => "valueerror"
+  | some .indexError => "indexerror"
+  | some .typeError => "typeerror"
+  | some .keyError => "keyerror"
+
+def encWritten (w : Written) : String := encStr (String.ofList w.text) ++ " " ++ encErr w.err
+
+def optList (f : Tok → Option α) (t : Tok) : Option (Option (List α)) :=
+  match t with
+  | Tok.none => some none
+  | t => do pure (some (← (← t.list?).mapM f))
+
+def pathsOf (t : Tok) : Option ItpPaths :=
+  match t with
+  | Tok.none => some .notDict
+  | t => do
+    let l ← (← t.list?).mapM fun e => do
+      match ← e.list? with
+      | [k, v] => pure (← k.str?, ← v.str?)
+      | _ => none
+    pure (.dict l)
+
+def rowOf (t : Tok) : Option MapRow := do
+  match ← t.list? with
+  | [i1, i2, rna, ca, ra, rnb, cb, rb, dca, over, cont, stab, rcsu] =>
+    pure { i1 := ← i1.int?, i2 := ← i2.int?, resnameA := ← rna.str?, chainA := ← ca.str?, residA := ← ra.int?,
+           resnameB := ← rnb.str?, chainB := ← cb.str?, residB := ← rb.int?, dca := ← qOf dca,
+           over := ← over.int?, cont := ← cont.int?, stab := ← stab.int?, rcsu := (← rcsu.int?) != 0 }
+  | _ => none
+
+/-- the real numbers of one emitted Go potential: sigma, epsilon (exact values), and `str(dist)` -/
+def pairNumOf (t : Tok) : Option (Q × Q × String) := do
+  match ← t.list? with
+  | [s, e, d] => pure (← qOf s, ← qOf e, ← d.str?)
+  | _ => none
+
+def zipEntries : List Cand → List (Q × Q × String) → Option (List NbParam)
+  | [], [] => some []
+  | c :: cs, (s, e, d) :: ns => (zipEntries cs ns).map (nonbondEntry c s e d :: ·)
+  | _, _ => none
+
 def encMap : MapResult → String
   | .valueError => "valueerror"
   | .ioError => "ioerror"
@@ -73,12 +151,54 @@ def handle (_ : Unit) (toks : List Tok) : Unit × String :=
         pure ("vs " ++ encList (vs.map encVS) ++ " inter "
               ++ encList ((vsInteractions vs).map fun p => encList [encInt p.1, encInt p.2])
               ++ " go " ++ encOutcome o)
+    | [Tok.str "goord", pre, bb, vsn, atoms, edges, contacts, lp, lq, up, uq, sep, orders] => do
+        let P : Params := { pre := ← pre.str?, backbone := ← bb.str?,
+                            low := { p := ← lp.int?, q := ← lq.nat? }, up := { p := ← up.int?, q := ← uq.nat? },
+                            sep := ← sep.int? }
+        let as ← (← atoms.list?).mapM atomOf
+        let es ← (← edges.list?).mapM edgeOf
+        let cs ← (← contacts.list?).mapM contactOf
+        let os ← (← orders.list?).mapM ints?
+        let (vs, o) := goPipelineOrd P (← vsn.str?) as es cs os
+        pure (encJob vs o)
     | [Tok.str "gohist", reset, pre, bb, vsn, lp, lq, up, uq, sep, jobs] => do
         let P : Params := { pre := ← pre.str?, backbone := ← bb.str?,
                             low := { p := ← lp.int?, q := ← lq.nat? }, up := { p := ← up.int?, q := ← uq.nat? },
                             sep := ← sep.int? }
         let js ← (← jobs.list?).mapM jobOf
         pure (" | ".intercalate (history ((← reset.int?) != 0) P (← vsn.str?) js []))
+    | [Tok.str "wnb", c6, entries] => do
+        pure (encWritten (writeNonbond ((← c6.int?) != 0) (← (← entries.list?).mapM nbOf)))
+    | [Tok.str "wat", c6, entries] => do
+        pure (encWritten (writeAtomtypes ((← c6.int?) != 0) (← (← entries.list?).mapM atOf)))
+    | [Tok.str "wtop", c6, nmol, ats, nbs, paths] => do
+        let r := goParamFiles ((← c6.int?) != 0) (← nmol.nat?) (← optList atOf ats) (← optList nbOf nbs) (← pathsOf paths)
+        pure (encList (r.1.map fun f => encList [encStr f.1, encStr (String.ofList f.2.text)]) ++ " " ++ encErr r.2)
+    | [Tok.str "gomapw", extra, version, rows] => do
+        let ex := (← strs? extra).map String.toList
+        let text := mapFileText ex (← version.str?) (← (← rows.list?).mapM rowOf)
+        pure (encStr (String.ofList text) ++ " read " ++ encMap (readGoMap text))
+    | [Tok.str "gofiles", pre, bb, vsn, atoms, edges, contacts, lp, lq, up, uq, sep, nums, tol, epsq] => do
+        let P : Params := { pre := ← pre.str?, backbone := ← bb.str?,
+                            low := { p := ← lp.int?, q := ← lq.nat? }, up := { p := ← up.int?, q := ← uq.nat? },
+                            sep := ← sep.int? }
+        let as ← (← atoms.list?).mapM atomOf
+        let es ← (← edges.list?).mapM edgeOf
+        let cs ← (← contacts.list?).mapM contactOf
+        let ns ← (← nums.list?).mapM pairNumOf
+        let tolq ← qOf tol
+        let eq ← qOf epsq
+        let (vs, o) := goPipeline P (← vsn.str?) as es cs
+        match o with
+        | .ok out =>
+          match zipEntries out ns with
+          | some entries =>
+            pure ("at " ++ encWritten (writeAtomtypes false (atomtypesOf vs))
+                  ++ " nb " ++ encWritten (writeNonbond false entries)
+                  ++ " sigma " ++ encList ((out.zip ns).map fun p => encBool (sigmaOk tolq p.2.1 p.1.d2))
+                  ++ " eps " ++ encList (ns.map fun p => encBool (p.2.1.same eq)))
+          | none => pure "pair-count-mismatch"
+        | _ => pure "aborted"
     | [Tok.str "gomap", text] => do
         pure (encMap (readGoMap (← text.str?).toList))
     | _ => none
